@@ -232,6 +232,8 @@ func checkC19(c *Ctx) {
 		rk.Check(ok && has, execF.Name(), "store:Statement.Vars", pos, "Vars cleared only when not DryRun", "Statement.Vars is cleared in Execute even in DryRun mode")
 	}
 
+	checkC19Readers(c)
+
 	// ---- C19.subquery ----
 	rq := c.Rule("C19.subquery", "every pipeline execution started while rendering a value (Statement.AddVar) runs on a Session{DryRun: true} handle", 1)
 	addVar := p.MethodDecl(pkgGorm, "Statement", "AddVar")
